@@ -2,6 +2,9 @@ import BoxoModel.C40.Model
 /-! Line-protocol driver for C40 (see /verif/docs/HOWTO.md).
 ops:  cfg <limit>      (new FS keystore in directory "/ks" with NAME_MAX = limit, new Mem keystore)
       has <name> | put <name> <key> | get <name> | del <name> | list | dump     (hex, "-" = empty)
+      plantsym <fname> <target> | plantdir <fname> | plantfile <fname> <hex> <keyok> |
+      plantout <target> <hex> <keyok>      foreign objects: <fname> inside the keystore directory,
+                                           <target> = path relative to the directory's parent
 output: `fs=<result> mem=<result>`; dump: files of the keystore directory and every file outside it -/
 open C40 BaseN
 
@@ -50,13 +53,30 @@ def doOp (st : St) (op : Option Op) : St × String :=
     let m := memStep st.mem op
     ({ st with fs := r.1, mem := m.1 }, s!"fs={showOut r.2} mem={showOut m.2}")
 
+def rel (_st : St) (p : Path) : String := String.ofList (p.drop 1)   -- "/outside/x" ↦ "outside/x"
+
+def showForeign (st : St) : Foreign → String
+  | .symlink t => "->" ++ rel st t
+  | .dir => "dir"
+  | .file d _ => hex d
+
 def showDump (st : St) : String :=
-  let inside := st.fs.files.filterMap fun (p, d) => (FS.childName st.cfg.dir p).map fun n => String.ofList n ++ "=" ++ hex d
-  let outside := st.fs.files.filterMap fun (p, _) =>
+  let all : List (Path × String) :=
+    (st.fs.files.map fun (p, d) => (p, hex d)) ++ (st.fs.foreign.map fun (p, f) => (p, showForeign st f))
+  let inside := all.filterMap fun (p, v) => (FS.childName st.cfg.dir p).map fun n => String.ofList n ++ "=" ++ v
+  let outside := all.filterMap fun (p, v) =>
     match FS.childName st.cfg.dir p with
     | some _ => none
-    | none => some (String.ofList p)
+    | none => some (rel st p ++ "=" ++ v)
   "dump " ++ ";".intercalate (sortStrings inside) ++ " outside=" ++ ";".intercalate (sortStrings outside)
+
+def doPlant (st : St) (p : Path) (f : Option Foreign) : St × String :=
+  match f with
+  | none => (st, "bad-op")
+  | some f => let r := st.fs.plant p f; ({ st with fs := r.1 }, if r.2 then "ok" else "exists")
+
+def inDir (st : St) (fname : String) : Path := join st.cfg.dir fname.toList
+def outPath (t : String) : Path := '/' :: t.toList
 
 def stepLine (st : St) (line : String) : St × String :=
   match (line.trimAscii.toString.splitOn " ").filter (· ≠ "") with
@@ -68,6 +88,10 @@ def stepLine (st : St) (line : String) : St × String :=
   | ["get", n] => doOp st (do pure (.get (← unhex n)))
   | ["del", n] => doOp st (do pure (.delete (← unhex n)))
   | ["list"] => doOp st (some .list)
+  | ["plantsym", fname, target] => doPlant st (inDir st fname) (some (.symlink (outPath target)))
+  | ["plantdir", fname] => doPlant st (inDir st fname) (some .dir)
+  | ["plantfile", fname, d, ok] => doPlant st (inDir st fname) (do pure (.file (← unhex d) (ok == "1")))
+  | ["plantout", target, d, ok] => doPlant st (outPath target) (do pure (.file (← unhex d) (ok == "1")))
   | ["dump"] => (st, showDump st)
   | _ => (st, "bad-op")
 
